@@ -89,6 +89,8 @@ def fmt_value(v):
         return b"true" if v else b"false"
     if isinstance(v, int):
         return str(v).encode()
+    if isinstance(v, float):
+        return ("%g" % v).encode()      # C's %g: all three engines print floats with it
     if isinstance(v, bytes):
         return v
     if isinstance(v, tuple) and v and v[0] == "enum":
